@@ -17,7 +17,9 @@ import (
 func init() { checks["C08"] = checkC08 }
 
 var tmplPieces = []string{"$", "$$", "$0", "$1", "$2", "$10", "${1}", "${2}x", "${", "}", "$na", "${na}", "${nb}", "$nb_", "$1x", "$01", "${01}",
-	"x", "-", " ", "$é", "${é}", "$\xff", "${na", "$_", "${12345678901}", "$9", "ab", "$na$nb", "\\$1"}
+	"x", "-", " ", "$é", "${é}", "$\xff", "${na", "$_", "${12345678901}", "$9", "ab", "$na$nb", "\\$1",
+	// name runes outside ASCII: decimal digits (Nd), letters, and number-like runes that are neither (Nl, No) — after $n, $name and inside ${…}
+	"$1٣", "${na٣}", "$٣", "${٣}", "$na٣", "$1é", "$naé", "${1٣}", "$１", "${na１}", "$1ⅷ", "$na²", "${naⅷ}", "$_٣", "$2३x"}
 
 func genTemplate(r *RNG) string {
 	n := 1 + r.Intn(4)
